@@ -253,7 +253,7 @@ def run_check(prop, tier, seed):
     never = []
     try:
         # 1. Mech-level model checking (design level; DRIFT/tool error, never a verdict by itself)
-        for m in (prop.mech(tier, seed) if hasattr(prop, "mech") else []):
+        for m in (prop.mech(tier, seed) if hasattr(prop, "mech") and not os.environ.get("VERIF_SKIP_MECH") else []):      # (the switch is for debugging only)
             if m.get("apalache"):
                 # unbounded safety of a typed count-level model: Init => IndInv, IndInv /\ Next => IndInv', IndInv => Safety
                 info = lib.run_apalache(m["module"], m["apalache"], timeout=m.get("timeout", 600))
